@@ -118,9 +118,7 @@ func vpH_C01_bigterm() {
 	docs := vpBigDocsRep(n, map[int]bool{7: true, n - 2: true}, vpChoice("repeated-field", 2) == 1)
 	mode := []uint32{1025, 1024}[vpChoice("mode", 2)]
 	seg := vpBuild(docs, mode)
-	if vpChoice("loaded", 2) == 1 {
-		seg = vpLoad(vpPersist(seg))
-	}
+	seg = vpLoadedVariant(seg)
 	half := uint64(n / 2)
 	vpBigCheck("big", seg, docs, []uint64{3, half - 2, half, half + 30, uint64(n) - 1, uint64(n) + 5})
 	vpReach("C01 bigterm end")
